@@ -55,7 +55,7 @@ def r41(F):
     r = RuleResult("R41", "a document's analysis is replaced as a whole",
                    "update_document stores a result computed by analyze from the content argument and the workspace cache only; "
                    "ServerState.documents is written only by insert (open / change) and remove (close); analyze never sees the "
-                   "documents map", floor=4)
+                   "documents map; the workspace index replaces an entry on every update", floor=5)
     ud = F.fn(STATE + "::update_document")
     o = Origins(ud)
     ins = [(b, t) for b, t in ud.calls() if callee(t).endswith("HashMap<K, V, S>::insert") or callee(t).endswith("HashMap::insert")]
@@ -76,6 +76,18 @@ def r41(F):
     assigns = sorted({a[1] for a in acc if a[0] == "assign"})
     ok = set(writers) <= {("update_document", "insert"), ("handle_notification", "remove")} and not assigns
     r.inst("ServerState.documents:writers", "src/lsp/mod.rs", ok, "written by %s" % writers if ok else "documents written by %s / assigned in %s" % (writers, assigns))
+    # the workspace index follows the same discipline: whatever the new text is (also one that no longer parses), the entry
+    # of the path is replaced by the analysis of that text on every path through update_from_content
+    uc = F.fn("ucglib::lsp::workspace::WorkspaceIndex::update_from_content")
+    ouc = Origins(uc)
+    wins = [(b2, t2) for b2, t2 in uc.calls() if callee(t2).endswith("HashMap<K, V, S>::insert") or callee(t2).endswith("HashMap::insert")]
+    need(wins, "files.insert not found in WorkspaceIndex::update_from_content")
+    good = {b2 for b2, t2 in wins if ANALYZE in results_in(ouc.at(t2["args"][2], b2)) and ("field", "files") in ouc.at(t2["args"][0], b2)}
+    ok = bool(good) and util.must_pass(uc, 0, good)
+    r.inst("update_from_content:always-replaces", uc.where(sorted(good)[0]) if good else uc.where(), ok,
+           "files[path] = analyze(content, ..) on every path" if ok else
+           "update_from_content can return without replacing the entry of the path (an analysis that failed to parse keeps the previous "
+           "one): workspace/symbol and importers of that file answer from an older text")
     af = F.fn(ANALYZE)
     tys = [af.local_ty(i) for i in range(1, af.nargs + 1)]
     ok = not any("ServerState" in x or "lsp_types::Url" in x for x in tys)
